@@ -373,9 +373,25 @@ pub fn gcd_ext_large_word<const N: usize, const P: usize>(b: Word, swap: bool) {
 
 /// kernel gcd::gcd_ext_word(lhs, rhs): g = gcd, and a*lhs + b*rhs == g with b = b_sign * (lhs after the call)
 pub fn k_gcd_ext_word<const N: usize, const P: usize>(rhs: Word) {
-    use core::cmp::Ordering;
     let l0: [Word; N] = nd::any();
     nd::assume(l0[N - 1] != 0);
+    k_gcd_ext_word_on::<N, P>(l0, rhs);
+}
+
+/// the same with LITERAL upper words and a symbolic low word below 2^sbits: the word-level Euclid loop then
+/// runs on (rhs, lhs mod rhs) with every residue reachable
+pub fn k_gcd_ext_word_lowsym<const N: usize, const P: usize>(up: [Word; N], rhs: Word, sbits: u32) {
+    let s: Word = nd::any();
+    if sbits < Word::BITS {
+        nd::assume(s < (1 << sbits));
+    }
+    let mut l0 = up;
+    l0[0] = s;
+    k_gcd_ext_word_on::<N, P>(l0, rhs);
+}
+
+fn k_gcd_ext_word_on<const N: usize, const P: usize>(l0: [Word; N], rhs: Word) {
+    use core::cmp::Ordering;
     let mut l: Box<[Word; N]> = Box::new(l0);
     let (g, a, b_sign) = dashu_int::verif::gcd::gcd_ext_word(&mut l[..], rhs);
     assert!(g != 0 && rhs % g == 0);
